@@ -724,6 +724,10 @@ class Unit:
                 text = excise_match(text, ex["scrutinee"], ex["replace"], self.report, itemname)
             for ex in icfg.get("excise_stmt", []):
                 text = excise_stmt(text, ex["anchor"], ex.get("replace", ""), self.report, itemname)
+            if icfg.get("panic_to"):
+                # W9b: in functions that reject by panicking (HttpRouter::insert), each `panic!(msg..)` becomes a call
+                # of a diverging stand-in whose precondition demands a justification for the rejection
+                text = strip_macro_calls(text, ["panic"], icfg["panic_to"], self.report, itemname, "W9b")
             text = w9_panic_args(text, self.report, itemname)
             if icfg.get("desugar_try"):
                 text = desugar_try(text, self.report, itemname)
@@ -1163,6 +1167,14 @@ def enumerate_obligations(text: str) -> Tuple[List[str], Dict[str, Tuple[int, in
                 obs.append(f"{key}#{labs[ln]}")
                 lab_of_line[ln] = f"{key}#{labs[ln]}"
         obs.append(f"{key}#safety")
+    # every label must lie inside some function (a brace at the top level of a contract clause makes the lexer end
+    # the function early: wrap such a clause in parentheses)
+    spec_ranges = [(a, b) for _n, a, b, _m in fn_ranges(text)]
+    for ln, lab in labs.items():
+        if lab.startswith("vacuity"):
+            continue
+        if not any(a <= ln <= b for a, b in spec_ranges):
+            raise ExtractError(f"label @{lab} (assembled line {ln}) lies outside every function range")
     return obs, ranges, lab_of_line
 
 
